@@ -19,10 +19,13 @@ def gen_model(seed, opts):
     md = mg.generate(rng, opts)
     if opts.get('prom', True):
         mg.add_promotions(rng, md, opts.get('prom_frac', .5))
+    if opts.get('shared', True):
+        mg.add_shared_promotes(rng, md)
     if opts.get('cyc', True) and rng.random() < opts.get('cyc_frac', .4):
         mg.add_cycle(rng, md)
     if opts.get('vois', True):
-        mg.add_vois(rng, md, scaling=opts.get('voi_scaling', True), indices=opts.get('voi_indices', True))
+        mg.add_vois(rng, md, scaling=opts.get('voi_scaling', True), indices=opts.get('voi_indices', True),
+                    bare_nd=opts.get('voi_bare_nd', False))
     if opts.get('scaling'):
         mg.add_output_scaling(rng, md)
     mg.assign_solvers(rng, md)
@@ -43,6 +46,8 @@ def with_solver(md, ln=None, nl=None):
     m = copy.deepcopy(md)
     cg = mg.cyclic_groups(m)
     for gp, sv in m['solvers'].items():
+        if gp != '' and gp not in cg:
+            continue            # acyclic sub-groups keep the linear solver the generator gave them
         if ln is not None:
             name, opts = ln
             if gp in cg and name == 'runonce':
@@ -61,7 +66,8 @@ def with_solver(md, ln=None, nl=None):
 
 
 def has_matfree(md):
-    return any(s == 'matfree' for c in md['comps'] for row in c['storage'] for s in row)
+    return any(s == 'matfree' for c in md['comps'] for row in c['storage'] for s in row) or \
+        any(c.get('mf') for c in md['comps'])
 
 
 def legal(md):
